@@ -460,3 +460,22 @@ fn c11_application_block_roundtrip() {
     assert!(matches!(r, Err(Error::InsufficientApplicationBlock)));
     std::mem::forget(r);
 }
+
+// vacuity twin for the FIFO round-trip family
+// @harness prop=C11 tier=quick expect=fail timeout=600
+// @units metadata::Streaminfo::to_writer metadata::Streaminfo::from_reader
+// @bound reachability witness: the STREAMINFO round trip reaches its final comparison
+#[kani::proof]
+#[kani::unwind(40)]
+fn c11_streaminfo_roundtrip_twin() {
+    let si = any_streaminfo();
+    let mut q = TokFifo::<40>::new();
+    let w = q.build(&si);
+    std::mem::forget(w);
+    let back: Result<Streaminfo, std::io::Error> = q.parse();
+    if let Ok(b) = back {
+        if b.sample_rate == si.sample_rate && q.drained() && !q.failed {
+            assert!(false);
+        }
+    }
+}
